@@ -29,7 +29,9 @@ RULE = ('cases = T: expression-generator rules in text form over leaves of every
         'accept / early leaves reject first, alternating with the opposite, printing after every evaluation: the print must stay the first print, stay a '
         'fix-point of print-parse, and the rule parsed from the FIRST print must print and decide like the evaluated object; every rule of an S set is '
         'enforced in all worlds and the dump must be unchanged and still describe the living set; identical RuleDefaults must be and stay equal. Decisions are taken in 24 worlds (credentials x target) '
-        'chosen so that every leaf kind varies. Non-trivial = the decision vector is not constant; distinct = distinct rule value. Stratum `print-overlap`: two threads print the same parsed rule and its rule set at the same time (second one at sampled line boundaries of the first, and both in flight). Stratum `first-use`: in a fresh interpreter per schedule, two threads parse, print and decide one rule each (http / https / role / attribute leaves) as the very first use of the library, the first pre-empted at a sampled line boundary (lazy set-up such as the scan for plugin check kinds happens inside these calls): both must print and decide as when run one after the other, and the printed text parsed again afterwards must print and decide the same.')
+        'chosen so that every leaf kind varies. Non-trivial = the decision vector is not constant; distinct = distinct rule value. Stratum `print-overlap`: two threads print the same parsed rule and its rule set at the same time (second one at sampled line boundaries of the first, and both in flight). Stratum `first-use`: in a fresh interpreter per schedule, two threads parse, print and decide one rule each (http / https / role / attribute leaves) as the very first use of the library, the first pre-empted at a sampled line boundary (lazy set-up such as the scan for plugin check kinds happens inside these calls): both must print and decide as when run one after the other, and the printed text parsed again afterwards must print and decide the same. '
+        'Stratum `eq-pairs`: pairs of RuleDefaults (one sometimes a DocumentedRuleDefault) over two rules that are close relatives - an and/or group and its proper prefix / suffix / permutation / version with a duplicated or a dropped operand / other operator / respelling, at depth 0-2 under and/or/not, in text and list-of-lists form, same and different names: == (both directions) true implies identical decisions, identical printed checks under the same name imply ==; == true for differently printed rules that decide alike, and == across names, are counted as unconstrained. '
+        'Stratum `url-leaves`: http:/https: leaves whose URL carries user information (user, user:password, escapes, placeholders), a port, a query, a fragment, percent escapes and placeholders, alone and under and/or/not, in text and list form and inside a dumped and re-loaded rule set, in pairs of URLs differing in one part (the password in half of them), under a transport stub that records the requested URL and answers by a checksum of the whole URL: the rule parsed from the print / loaded from the dump must request the same URLs and decide the same, and two rules that print identically or are == as RuleDefaults must request the same URLs.')
 ASSUMPTIONS = ['leaves contain no whitespace and, in list form, no leading ( or trailing ) - the tokenizer can never produce such a leaf from text',
                'a lone quoted string is not a rule of the language (C02 covers it)',
                'http(s) checks answer through a stub of requests.post whose answer depends on scheme and path: http://.../yes and https://.../sec -> True, anything else -> False']
@@ -41,7 +43,9 @@ PLAN = {'quick': dict(shards=4, wall=120), 'thorough': dict(shards=16, wall=400)
 MIN = {'overlapping_evaluations': 200, 'first_use_schedules': 16, 'first_use_schedules_inside_lazy_setup': 8, 'evaluations': 2000, 'reparsed_rules': 2000, 'rulesets_roundtripped': 100, 'eq_true_pairs': 50,
        'printed_forms_with_multiple_sources': 50, 'second_dumps': 50,
        'prints_after_evaluation': 10000, 'histories_with_or_alternatives': 150, 'dumps_after_enforcing': 100,
-       'identical_ruledefaults_after_evaluation': 300}
+       'identical_ruledefaults_after_evaluation': 300,
+       'eq_relation_pairs': 120, 'eq_relation_pairs_deciding_differently': 40, 'url_leaves_roundtripped': 150, 'url_leaves_requested': 100,
+       'url_pairs_differing_in_userinfo': 30}
 ANCHORS = ['oslo_policy._parser:parse_rule', 'oslo_policy.policy:Rules.__str__', 'oslo_policy.policy:Rules.load',
            'oslo_policy.policy:RuleDefault.__eq__', 'oslo_policy._checks:AndCheck.__str__', 'oslo_policy._checks:OrCheck.__str__',
            'oslo_policy._checks:NotCheck.__str__']
@@ -275,6 +279,10 @@ def to_list_value(rnd, leaves):
 
 def check_case(ctx, real, case):
     kind = case['kind']
+    if kind == 'Q':
+        return check_eq_pair(ctx, real, case)
+    if kind == 'U':
+        return check_url_case(ctx, real, case)
     if kind == 'T':
         res = []
         for text in case['texts']:
@@ -481,6 +489,341 @@ def fake_post(url, **kw):
     return _Reply('True' if (scheme == 'http' and path.endswith('/yes')) or (scheme == 'https' and path.endswith('/sec')) else 'False')
 
 
+# ---- stratum `eq-pairs`: RuleDefault == on pairs of rules that are close relatives of each other --------------------------
+QLEAVES = ['role:a', 'role:b', 'role:c', 'role:a', 'role:b', 'role:c', 'role:compute:admin', 'rule:h1', 'rule:h2', 'is_admin:True',
+           'project_id:%(project_id)s', 'user_id:%(user_id)s', "'Member':%(role.name)s", 'True:%(user.enabled)s', '@', '!',
+           'http://h/yes', 'https://h/sec', 'x:y', 'a.b.c:d']
+RELATIONS = ['prefix', 'prefix', 'suffix', 'permuted', 'duplicated', 'dropped-inside', 'other-operator', 'identical', 'names']
+QPAIRS = {'quick': 160, 'thorough': 4000}
+
+
+def q_operand(rnd, op, depth):
+    r = rnd.random()
+    if depth > 0 and r < 0.25:
+        return q_group(rnd, 'or' if op == 'and' else 'and', depth - 1)
+    if r < 0.4:
+        return ['not', rnd.choice(QLEAVES)]
+    return rnd.choice(QLEAVES)
+
+
+def q_group(rnd, op, depth):
+    return [op, [q_operand(rnd, op, depth) for _ in range(rnd.randint(2, 4))]]
+
+
+def q_text(t, top=True):
+    if isinstance(t, str):
+        return t
+    if t[0] == 'not':
+        return 'not ' + q_text(t[1], False)
+    s = (' %s ' % t[0]).join(q_text(x, False) for x in t[1])
+    return s if top else '(' + s + ')'
+
+
+def q_list(t):
+    """The list-of-lists value of a tree that has one (an `or` of leaves / of `and`s of leaves), else None."""
+    if isinstance(t, str):
+        return [t]
+    if t[0] == 'and' and all(isinstance(x, str) for x in t[1]):
+        return [list(t[1])]
+    if t[0] == 'or':
+        out = []
+        for x in t[1]:
+            if isinstance(x, str):
+                out.append(x)
+            elif x[0] == 'and' and all(isinstance(y, str) for y in x[1]):
+                out.append(list(x[1]))
+            else:
+                return None
+        return out
+    return None
+
+
+def q_relative(rnd, g, rel):
+    op, xs = g[0], list(g[1])
+    m = len(xs)
+    if rel == 'prefix':
+        ys = xs[:rnd.randint(1, m - 1)]
+    elif rel == 'suffix':
+        ys = xs[rnd.randint(1, m - 1):]
+    elif rel == 'permuted':
+        ys = xs[1:] + xs[:1] if rnd.random() < 0.5 else xs[::-1]
+    elif rel == 'duplicated':
+        ys = list(xs)
+        ys.insert(rnd.randint(0, m), rnd.choice(xs))
+    elif rel == 'dropped-inside':
+        ys = list(xs)
+        del ys[rnd.randrange(m - 1)]
+    elif rel == 'other-operator':
+        return ['or' if op == 'and' else 'and', xs]
+    else:
+        return [op, xs]
+    return ys[0] if len(ys) == 1 else [op, ys]
+
+
+def q_embed(rnd, how, g, extra):
+    """The same surroundings for both members of a pair: the group sits at depth 0, 1 or 2."""
+    if how == 1:
+        return ['not', g]
+    if how == 2:
+        return [extra[0], [extra[1], g]]
+    if how == 3:
+        return [extra[0], [g, extra[1]]]
+    if how == 4:
+        return [extra[0], [extra[1], ['not', [extra[2], [g, extra[3]]]]]]
+    return g
+
+
+def gen_eq_pair(rnd):
+    rel = rnd.choice(RELATIONS)
+    lists = rnd.random() < 0.3
+    if lists:
+        # a tree that has a list form: an or of ands of leaves
+        g = ['or', [rnd.choice(QLEAVES) if rnd.random() < 0.3 else ['and', [rnd.choice(QLEAVES) for _ in range(rnd.randint(2, 4))]]
+                    for _ in range(rnd.randint(2, 3))]]
+        inner = [i for i, x in enumerate(g[1]) if not isinstance(x, str)]
+        if inner and rnd.random() < 0.6:
+            i = rnd.choice(inner)
+            h = ['or', list(g[1])]
+            h[1][i] = q_relative(rnd, g[1][i], rel)
+        else:
+            h = q_relative(rnd, g, rel)
+        a, b = g, h
+    else:
+        g = q_group(rnd, rnd.choice(['and', 'or']), rnd.randint(0, 2))
+        h = q_relative(rnd, g, rel)
+        how = rnd.randint(0, 4)
+        extra = [rnd.choice(['and', 'or']), rnd.choice(QLEAVES), rnd.choice(['and', 'or']), rnd.choice(QLEAVES)]
+        a, b = q_embed(rnd, how, g, extra), q_embed(rnd, how, h, extra)
+    va, vb = q_text(a), q_text(b)
+    if lists:
+        # text vs list form / list vs list
+        f = rnd.randint(0, 2)
+        la, lb = q_list(a), q_list(b)
+        if f in (0, 1) and la is not None:
+            va = la
+        if f in (0, 2) and lb is not None:
+            vb = lb
+    elif rel == 'identical' and rnd.random() < 0.5:
+        vb = '(' + vb + ')'
+    names = ['n', 'n']
+    if rel == 'names':
+        names[1] = rnd.choice(['m', 'N', 'n:', 'nn'])
+    return dict(kind='Q', a=va, b=vb, names=names, relation=rel, documented=rnd.random() < 0.15)
+
+
+def check_eq_pair(ctx, real, case):
+    """RuleDefault == relies on: equal printed forms <=> decide identically for built-in rules.  So == true implies identical
+    decisions; defaults of the same name and class whose checks print identically are equal.  == true for rules that print
+    differently but decide alike in all worlds, and == across different names, are left open."""
+    P, parse = real.policy, real._parser.parse_rule
+    a, b = case['a'], case['b']
+    na, nb = case['names']
+    try:
+        ca, cb = parse(a), parse(b)
+        pa, pb = str(ca), str(cb)
+    except Exception as e:
+        ctx.violation('print-or-parse-raises', case, {'observed': type(e).__name__ + ': ' + str(e)[:100]})
+        return
+    va, vb = real.vector(ca), real.vector(cb)
+    try:
+        da = P.RuleDefault(na, a)
+        db = (P.DocumentedRuleDefault(nb, b, 'd', [{'path': '/', 'method': 'GET'}]) if case.get('documented') else P.RuleDefault(nb, b))
+        eqs = (da == db, db == da)
+    except Exception as e:
+        ctx.violation('ruledefault-eq-raises', case, {'observed': type(e).__name__ + ': ' + str(e)[:100]})
+        return
+    ctx.count('eq_relation_pairs')
+    ctx.case(['Q', a, b, na, nb], nontrivial=va != vb or pa == pb, stratum='eq-pairs')
+    if va != vb:
+        ctx.count('eq_relation_pairs_deciding_differently')
+    if pa == pb and json.dumps(a) != json.dumps(b):
+        ctx.count('eq_relation_pairs_printing_identically')
+    detail = {'a': a, 'b': b, 'names': [na, nb], 'relation': case.get('relation'), 'a_prints': pa, 'b_prints': pb,
+              'decisions_a': va, 'decisions_b': vb, 'a==b': eqs[0], 'b==a': eqs[1]}
+    for eq in eqs:
+        ctx.count('eq_pairs')
+        if eq:
+            ctx.count('eq_true_pairs')
+            if va != vb:
+                ctx.violation('equal-ruledefaults-decide-differently', case, detail)
+                return
+            if na != nb:
+                ctx.unconstrained('ruledefaults-equal-across-names')
+            elif pa != pb:
+                ctx.unconstrained('ruledefaults-equal-although-printed-differently')
+        elif na == nb and pa == pb:
+            ctx.violation('ruledefaults-printing-identically-not-equal', case, detail)
+            return
+
+
+# ---- stratum `url-leaves`: http:/https: leaves whose URL has user information, a port, a query, a fragment, escapes, placeholders
+U_USER = ['', '', 'svc@', 'svc:s3cret@', 'svc:other@', 'svc:@', ':pw@', 'a%%40b:p%%3Aw@', 'svc:%(user_id)s@', '%(x)s:%(n)s@',
+          'svc:pa:ss@', 'SVC:S3cret@', 'svc:s3cret@', 'adm:Pw-1_2.3~@']
+U_HOST = ['h', 'h.example', '127.0.0.1', '[::1]', '%(n)s.example', 'H']
+U_PORT = ['', '', ':8', ':8080', ':%(x)s', ':0']
+U_PATH = ['/yes', '/sec', '/no', '', '/', '/a/b/yes', '/%(n)s', '/p%%20q', '/%%7Euser/sec', '/a;b=c', '/yes/',
+          '/%(project_id)s/%(user_id)s', '/%%2F', '/%%2f', '/%41']
+U_QUERY = ['', '', '?q=1', '?a=1&b=%(n)s', '?next=//u:p@z/', '?pw=s3cret', '?e=%%3D%%26', '?']
+U_FRAG = ['', '', '', '#f', '#u:p@h', '#%(n)s', '#']
+U_PARTS = [('scheme', ['http', 'https']), ('user', U_USER), ('host', U_HOST), ('port', U_PORT), ('path', U_PATH),
+           ('query', U_QUERY), ('frag', U_FRAG)]
+U_WRAPS = 9
+UWORLDS = [0, 1, 5, 10, 15, 20]
+UCASES = {'quick': 110, 'thorough': 3000}
+CALLS = []
+
+
+def recording_post(url, **kw):
+    """Transport stub of the url-leaves stratum: remembers the URL it is asked for; the answer depends on every character
+    of it (a server may tell requests apart by any part of the URL, the password included)."""
+    import zlib
+    CALLS.append(url)
+    return _Reply('True' if zlib.crc32(str(url).encode('utf-8', 'replace')) & 1 else 'False')
+
+
+def url_text(p):
+    return '%s://%s%s%s%s%s%s' % (p['scheme'], p['user'], p['host'], p['port'], p['path'], p['query'], p['frag'])
+
+
+def gen_url_case(rnd):
+    p = {k: rnd.choice(pool) for k, pool in U_PARTS}
+    if rnd.random() < 0.5:
+        p['user'] = rnd.choice([u for u in U_USER if ':' in u])
+    q = dict(p)
+    r = rnd.random()
+    if r < 0.45:
+        part = 'user'
+    elif r < 0.9:
+        part = rnd.choice([k for k, _ in U_PARTS])
+    else:
+        part = None                                    # the same URL twice
+    if part:
+        q[part] = rnd.choice([x for x in dict(U_PARTS)[part] if x != p[part]])
+    return dict(kind='U', urls=[url_text(p), url_text(q)], differ_in=part, wrap=rnd.randrange(U_WRAPS))
+
+
+def url_wrap(how, leaf):
+    return [leaf, 'not ' + leaf, 'role:zz or ' + leaf, '(' + leaf + ' and @)', 'not (' + leaf + ' or !)',
+            'role:zz or (@ and (not ' + leaf + '))', [[leaf]], [['@', leaf], ['!']], [leaf, 'role:zz']][how % U_WRAPS]
+
+
+def url_vector(real, check, name='p', rules=None):
+    """[decision, URLs requested] of a check in some worlds, under the recording transport."""
+    if rules is None:
+        rules = dict(real.helpers)
+        rules[name] = check
+        rules = real.policy.Rules(rules)
+    real.enf.set_rules(rules)
+    out = []
+    for w in UWORLDS:
+        creds, target = WORLDS[w]
+        del CALLS[:]
+        try:
+            d = '1' if real.enf.enforce(name, target, creds) else '0'
+        except Exception as e:
+            d = 'E(%s)' % type(e).__name__
+        out.append([d, list(CALLS)])
+    return out
+
+
+def url_differs(case, key_url, key_dec, v1, v2, ctx, detail):
+    if v1 == v2:
+        return False
+    urls = [x[1] for x in v1] != [x[1] for x in v2]
+    w = [i for i in range(len(v1)) if v1[i] != v2[i]][0]
+    ctx.violation(key_url if urls else key_dec, case,
+                  dict(detail, world={'creds': WORLDS[UWORLDS[w]][0], 'target': WORLDS[UWORLDS[w]][1]},
+                       decision_and_requests=v1[w], decision_and_requests_other=v2[w]))
+    return True
+
+
+def check_url_case(ctx, real, case):
+    P, parse = real.policy, real._parser.parse_rule
+    with mock.patch('requests.post', recording_post):
+        seen = []
+        for u in case['urls'] if case['urls'][0] != case['urls'][1] else case['urls'][:1]:
+            value = url_wrap(case['wrap'], u)
+            try:
+                c1 = parse(value)
+                s1 = str(c1)
+                c2 = parse(s1)
+                s2 = str(c2)
+            except Exception as e:
+                ctx.violation('print-or-parse-raises', case, {'rule': value, 'observed': type(e).__name__ + ': ' + str(e)[:100]})
+                return
+            ctx.count('url_leaves_roundtripped')
+            if s1 != s2:
+                ctx.violation('printed-form-not-a-fix-point', case, {'rule': value, 'printed': s1, 'reprinted': s2})
+                return
+            v1, v2 = url_vector(real, c1), url_vector(real, c2)
+            requested = sum(len(x[1]) for x in v1)
+            if requested:
+                ctx.count('url_leaves_requested')
+            ctx.case(['U', value], nontrivial=requested > 0, stratum='url-leaves')
+            if url_differs(case, 'reparsed-rule-requests-a-different-url', 'reparsed-rule-decides-differently', v1, v2, ctx,
+                           {'rule': value, 'printed': s1}):
+                return
+            # the same rule inside a rule set: dump, load
+            try:
+                r1 = P.Rules.from_dict({'p': value, 'q': 'rule:p or role:zz', 'h1': HELPERS['h1'], 'h2': HELPERS['h2']})
+                dumped = str(r1)
+                r2 = P.Rules.load(dumped)
+                redumped = str(r2)
+            except Exception as e:
+                ctx.violation('ruleset-dump-or-load-raises', case, {'rule': value, 'observed': type(e).__name__ + ': ' + str(e)[:100]})
+                return
+            if dumped != redumped:
+                ctx.violation('ruleset-dump-not-a-fix-point', case, {'rule': value, 'dump': dumped, 'redump': redumped})
+                return
+            w1, w2 = url_vector(real, None, 'q', r1), url_vector(real, None, 'q', r2)
+            if url_differs(case, 'reloaded-ruleset-requests-a-different-url', 'reloaded-ruleset-decides-differently', w1, w2, ctx,
+                           {'rule': value, 'dump': dumped}):
+                return
+            seen.append((value, s1, v1))
+        if len(seen) == 2:
+            (xa, sa, va), (xb, sb, vb) = seen
+            ctx.count('url_pairs')
+            if case.get('differ_in') == 'user':
+                ctx.count('url_pairs_differing_in_userinfo')
+            detail = {'rule_a': xa, 'rule_b': xb, 'a_prints': sa, 'b_prints': sb}
+            if sa == sb and url_differs(case, 'same-printed-form-different-requests', 'same-printed-form-different-decisions', va, vb, ctx, detail):
+                return
+            try:
+                eqs = (P.RuleDefault('n', xa) == P.RuleDefault('n', xb), P.RuleDefault('n', xb) == P.RuleDefault('n', xa))
+            except Exception as e:
+                ctx.violation('ruledefault-eq-raises', case, {'observed': type(e).__name__})
+                return
+            for eq in eqs:
+                ctx.count('eq_pairs')
+                if eq:
+                    ctx.count('eq_true_pairs')
+                    if url_differs(case, 'equal-ruledefaults-request-different-urls', 'equal-ruledefaults-decide-differently', va, vb, ctx, detail):
+                        return
+
+
+def run_eq_pairs(ctx, real):
+    ctx.stratum('eq-pairs', exhaustive=False)
+    with mock.patch('requests.post', fake_post):
+        for i in range(QPAIRS[ctx.tier] // (1 if ctx.tier == 'quick' else ctx.nshards) + 1):
+            if (i & 0x1f) == 0 and ctx.expired():
+                break
+            case = gen_eq_pair(ctx.sub_rnd('Q', ctx.tier, ctx.shard, i))
+            check_eq_pair(ctx, real, case)
+            if i % 60 == 0:
+                ctx.sample(case, 'eq-pairs')
+
+
+def run_url_leaves(ctx, real):
+    ctx.stratum('url-leaves', exhaustive=False)
+    for i in range(UCASES[ctx.tier] // (1 if ctx.tier == 'quick' else ctx.nshards) + 1):
+        if (i & 0x1f) == 0 and ctx.expired():
+            break
+        case = gen_url_case(ctx.sub_rnd('U', ctx.tier, ctx.shard, i))
+        check_url_case(ctx, real, case)
+        if i % 40 == 0:
+            ctx.sample(case, 'url-leaves')
+
+
 FIRST_USE = {'quick': 4, 'thorough': 40}        # sampled schedules per shard beside the systematic ones, each in a fresh interpreter
 
 
@@ -564,8 +907,14 @@ def run_first_use(ctx):
 
 
 def run(ctx):
-    ctx.reserve(0.7)          # the first-use stratum (fresh interpreters) keeps its share of the wall budget
     real = Real()
+    ctx.reserve(0.12)         # two small strata first, so that a cut wall budget does not lose them
+    run_eq_pairs(ctx, real)
+    ctx.release()
+    ctx.reserve(0.2)
+    run_url_leaves(ctx, real)
+    ctx.release()
+    ctx.reserve(0.7)          # the first-use stratum (fresh interpreters) keeps its share of the wall budget
     with mock.patch('requests.post', fake_post):
         n = N[ctx.tier] // ctx.nshards + 1
         for i in range(n):
